@@ -46,7 +46,7 @@ def c17_rf3(run):
 
 
 def c18_rf5(run):
-    rf_state.rf5(run)
+    rf_state.rf5(run, units=('mir', 'gen', 'c2mir', 'mir2c'))
     rf_state.nonreentrant(run)
     run.min_instances('RF5', 100)
     sh = run.shadow()
